@@ -53,8 +53,10 @@ fn iso_strategy() -> impl Strategy<Value = Iso> {
         proptest::sample::select(&[10u64, 60, 120][..]),
         0usize..3,
         prop_oneof![4 => Just(false), 1 => Just(true)],
+        // restart mode: both payments were in flight when an earlier lifetime died (Pending records, parts pending)
+        (prop_oneof![3 => Just(false), 1 => Just(true)], 1u8..=2, 1u8..=2),
     )
-        .prop_map(|((na, nb, a_amountless, b_amountless, splits), (a_ok, b_ok, a_parts, b_funded, a_funded, b_parts), (k, _), shuffle, seed, mpp, a_rejecting, stuck_poll)| {
+        .prop_map(|((na, nb, a_amountless, b_amountless, splits), (a_ok, b_ok, a_parts, b_funded, a_funded, b_parts), (k, _), shuffle, seed, mpp, a_rejecting, stuck_poll, (restart_mode, a_old_parts, b_old_parts))| {
             let cfg = Cfg { mpp_timeout_s: mpp, ..Cfg::default() };
             let pa = PaymentSpec { preimage: if seed % 2 == 0 { 0x04 } else { 0x11 }, // sha256(32 x 0x04) and sha256(32 x 0x22) share their first byte
                 invoice_amount: if a_amountless { None } else { Some(1_000_000) }, tlv_amount: 777_000, hints: Hints::None, explicit_payee: false, recipient_ok: a_ok, drain_parts: a_parts };
@@ -88,6 +90,17 @@ fn iso_strategy() -> impl Strategy<Value = Iso> {
             let mut scn = blank(vec![pa, pb], htlcs, seed);
             scn.cfg = cfg;
             scn.freeze = Some((0, k));
+            if restart_mode {
+                scn.initial_pending = vec![0, 1];
+                for _ in 0..a_old_parts {
+                    scn.initial_parts.push((0, 0));
+                }
+                for _ in 0..b_old_parts {
+                    scn.initial_parts.push((1, 0));
+                }
+                // A stays stuck in its status queries / waitsendpay
+                scn.freeze = Some((0, k % 5));
+            }
             if stuck_poll {
                 // a periodic getinfo poll that lightningd never answers is outstanding while both payments run
                 scn.manual_getinfo = true;
@@ -106,6 +119,8 @@ fn case(iso: &Iso) -> CaseReport {
     alone.freeze = None;
     let map_alone: Vec<usize> = (0..both.htlcs.len()).filter(|i| both.htlcs[*i].pay == 1).collect();
     alone.htlcs.retain(|h| h.pay == 1);
+    alone.initial_pending.retain(|p| *p == 1);
+    alone.initial_parts.retain(|p| p.0 == 1);
     let mut wa = World::new(alone.clone());
     wa.run();
     let mut wb = World::new(both.clone());
